@@ -354,7 +354,7 @@ func init() {
 	core.Register(&core.Prop{
 		ID:    "C17",
 		Level: "exploration",
-		Rule: "random trees as in C01 (adversarial names incl. non-ASCII, empty files, sizes around the 32KiB chunk, ~1MiB files, hard-link groups of files, fifos and char devices, symlinks, fifos, char/block devices, setuid/setgid/sticky, three owners, ns/negative/far-future mtimes, user.* xattrs with empty and binary values on files and directories (names holding '=' and '%' in 1 tree of 40, compared after undoing GNU tar's keyword encoding), trusted.* on symlinks) plus 0-2 entries renamed to 101-255 byte (partly non-ASCII) names x filter {none, include, exclude, include+exclude; 0-2 patterns each from the C10 grammar, single level fsutil.NewFilterFS} x source {fsutil.NewFS on disk, synthetic in-memory FS, fsutil.SubDirFS over NewFS, diagnostic: filter stacked on a keep-all map filter}. " +
+		Rule: "random trees as in C01 (adversarial names incl. non-ASCII, empty files, sizes around the 32KiB chunk, ~1MiB files, hard-link groups of files, fifos and char devices, symlinks, fifos, char/block devices, setuid/setgid/sticky, three owners, ns/negative/far-future mtimes, user.* xattrs with empty and binary values on files and directories (names holding '=' and '%' in 1 tree of 40, compared after undoing GNU tar's keyword encoding), trusted.* on symlinks) plus 0-2 entries renamed to 101-255 byte (partly non-ASCII) names x filter {none, include, exclude, include+exclude; 0-2 patterns each from the C10 grammar, single level fsutil.NewFilterFS} x source {fsutil.NewFS on disk, synthetic in-memory FS, fsutil.SubDirFS over NewFS (half of them with a second sub-root 'su' next to 'sub'), diagnostic: filter stacked on a keep-all map filter}. " +
 			"fsutil.WriteTar writes into a buffer. The view is predicted from an independent snapshot (or the model) + the naive reference filter and compared with a real second Walk; the archive is read with archive/tar (well-formed to EOF, two zero blocks, member sequence == view, per member: name with directory slash, type flag, link name, size, payload bytes, mode incl. special bits, uid/gid, |mtime - view| < 1s, device numbers, SCHILY.xattr.* records) and extracted as root with GNU tar (--xattrs --xattrs-include=* --same-owner --numeric-owner -p) into an empty directory whose snapshot is compared with the view (type, bytes, link groups, targets, device numbers, mode, owner, xattrs, mtime incl. directories to the second). " +
 			"non-trivial = the archive has at least one member and the case has a link group, a special file, a multi-chunk or empty file, a name > 100 bytes, or a filter that selects a proper non-empty subset; distinct by (tree, filter, source) fingerprint",
 		Assumptions: []string{
@@ -413,8 +413,22 @@ func c17Run(c *core.Ctx) *core.Result {
 	case "subdir":
 		d := tree.Entry{Path: "sub", Type: tree.Dir, Perm: 0750, UID: 7, GID: 8, Mtime: 1234567890_000000000}
 		full = c17Prefix(full, "sub", d)
+		dirs := []fsutil.Dir{{FS: base, Stat: d.Stat()}}
+		if core.NewRand(core.Mix(c.Seed, "C17-second-subroot", c.Index)).P(1, 2) {
+			// a second sub-root whose name is a proper prefix of the first
+			// one's: every path of "sub/..." also starts with "su"
+			t2 := &tree.Tree{Entries: []tree.Entry{
+				{Path: "b", Type: tree.Dir, Perm: 0755, Mtime: 1e18 + 1},
+				{Path: "b/z", Type: tree.File, Perm: 0644, Mtime: 1e18 + 2, Data: []byte("below the second sub-root")},
+				{Path: "k", Type: tree.File, Perm: 0600, UID: 9, Mtime: 1e18 + 3, Data: []byte("second sub-root")},
+			}}
+			d2 := tree.Entry{Path: "su", Type: tree.Dir, Perm: 0711, UID: 9, GID: 9, Mtime: 1e18}
+			full = &tree.Tree{Entries: append(c17Prefix(t2, "su", d2).Entries, full.Entries...)}
+			dirs = append(dirs, fsutil.Dir{FS: newSynthFS(t2), Stat: d2.Stat()})
+			r.Count("views_with_two_sub_roots_in_prefix_relation", 1)
+		}
 		var err error
-		base, err = fsutil.SubDirFS([]fsutil.Dir{{FS: base, Stat: d.Stat()}})
+		base, err = fsutil.SubDirFS(dirs)
 		if err != nil {
 			r.Inconclusive = "SubDirFS: " + err.Error()
 			return r
